@@ -772,6 +772,36 @@ Definition prop_dref (l : list sx) : option bool :=
   end.
 Local Close Scope Q_scope.
 
+(** * kind 15: InvCDF at attained CDF values of the bracket expansion's own probe points.
+    y_i = dist.CDF(x0_i) bit for bit, x0_i = 0, +-(2^k - 1): the expansion loop of the generic
+    InvCDF (dist.go) probes exactly these points, so y_i equals a probed CDF value and the
+    strict/non-strict comparisons decide the bracket. Judged by the property's own clause
+    (no panic; the result inverts the CDF), independent of the model: for 0 < y < 1
+    CDF(x) >= y, CDF(x) - y <= 1e-10, and x <= x0 ("the smallest x": x0 itself attains y). *)
+Local Open Scope Q_scope.
+Definition prop_probe_one (x0 y x f : b64) : bool :=
+  if b64_lt b64_zero y && b64_lt y b64_one then
+    match qf' y, qf' f with
+    | Some yq, Some fq => Qle_bool yq fq && Qle_bool (fq - yq) (1 # 10000000000) && b64_le x x0
+    | _, _ => false
+    end
+  else true.
+Local Close Scope Q_scope.
+Fixpoint prop_probe_all (x0s ys xs fs : list b64) : bool :=
+  match x0s, ys, xs, fs with
+  | [], [], [], [] => true
+  | x0 :: x0s', y :: ys', x :: xs', f :: fs' => prop_probe_one x0 y x f && prop_probe_all x0s' ys' xs' fs'
+  | _, _, _, _ => false
+  end.
+Definition prop_probe (l : list sx) : option bool :=
+  match l with
+  | [SZ which; p1; p2; x0s; ys; xs; fs; pan] =>
+      do x0s <- as_list as_f64 x0s; do ys <- as_list as_f64 ys; do xs <- as_list as_f64 xs;
+      do fs <- as_list as_f64 fs; do pan <- as_bool pan;
+      Some (negb pan && prop_probe_all x0s ys xs fs)
+  | _ => None
+  end.
+
 Definition code_prop (o : option bool) : N :=
   match o with Some b => code_of true b | None => code_undecodable end.
 
@@ -805,5 +835,6 @@ Definition run_case (s : sx) : N :=
   | SL (SZ 12 :: l) => code_prop (prop_slope l)
   | SL (SZ 13 :: l) => code_prop (prop_quad l)
   | SL (SZ 14 :: l) => code_prop (prop_dref l)
+  | SL (SZ 15 :: l) => code_prop (prop_probe l)
   | _ => code_undecodable
   end.
